@@ -49,7 +49,17 @@ func (Engine) Run(c *simkit.Choices, x *simkit.Ctx) *simkit.Violation {
 	if c.N(3) == 0 {
 		o.TopContainer = true
 	}
-	doc := common.GenDoc(c, f, o, k)
+	var doc *model.Doc
+	if c.N(1500) == 0 {
+		// far outside the value generators: nesting, lengths and counts beyond
+		// any limit an implementation may have picked
+		var kind string
+		doc, kind = common.ExtremeDoc(c, f)
+		k = len(doc.Values)
+		st.Probe("extreme-shape-" + kind)
+	} else {
+		doc = common.GenDoc(c, f, o, k)
+	}
 	stream := doc.Bytes
 
 	// per-value reference: the push parser on that value alone
@@ -126,6 +136,7 @@ func (Engine) Run(c *simkit.Choices, x *simkit.Ctx) *simkit.Violation {
 				st.Fault("eof-after-data")
 			}
 		}
+		x.Alive()
 		st.Eval(1)
 		st.Distinct(simkit.NewDigest().Bytes(data).Str(sc.Ctor).Int(sc.BufSize).Ints(sc.Reads).Int(b2i(sc.EOFWithData)).Int(sc.ReaderKind).Sum())
 		if v := runPlan(cd, f, sc, data, refs, noRef, doc, truncIn, x); v != nil {
